@@ -39,6 +39,10 @@ def _speed():
 def times(t, carrier):
     if carrier == "epoch":
         return np.array(t, dtype="int64")
+    if carrier == "aware_ny":
+        # timezone-aware python datetimes in a zone with daylight saving: elapsed time is between instants, not wall clocks
+        from .. import carriers
+        return carriers.time(t, "list_datetime_ny")
     if carrier == "epoch32":
         return epoch32(t)
     if carrier == "epoch_list":
@@ -66,7 +70,7 @@ def roc_case(draw, tier="quick"):
             if mode == "exact_off":
                 x[i] += sign * draw(st.sampled_from([Q, -Q]))
     x = draw(gen.overlay_missing(x))
-    return {"x": x, "t": t, "thr": thr, "tc": draw(st.sampled_from(["dt64", "dt64", "epoch", "epoch_list", "epoch32"]))}
+    return {"x": x, "t": t, "thr": thr, "tc": draw(st.sampled_from(["dt64", "dt64", "epoch", "epoch_list", "epoch32", "aware_ny"]))}
 
 
 def roc_rates(x, t):
@@ -185,7 +189,7 @@ def speed_case(draw, tier="quick"):
     if draw(st.booleans()) and f < s:
         s, f = f, s
     return {"lon": lon, "lat": lat, "t": t, "suspect": s, "fail": f,
-            "tc": draw(st.sampled_from(["dt64", "dt64", "epoch", "epoch32"]))}
+            "tc": draw(st.sampled_from(["dt64", "dt64", "epoch", "epoch32", "aware_ny"]))}
 
 
 def check_speed(case, rec):
